@@ -512,6 +512,26 @@ fn final_state(sys: &Sys) -> Value {
         };
         m.insert(format!("mem:{}", hex::encode(id.as_slice())), v);
     }
+    // the node-wide payment ledger in memory: per payment hash what is in flight on which channel
+    {
+        let state = sys.node.get_state();
+        let mut pays: Vec<(String, Value)> = state
+            .payments
+            .iter()
+            .map(|(h, rp)| {
+                let side = |m: &std::collections::BTreeMap<ChannelId, u64>| -> Value {
+                    Value::Object(m.iter().map(|(c, v)| (hex::encode(c.as_slice()), json!(v))).collect())
+                };
+                (hex::encode(h.0), json!({"incoming": side(&rp.incoming), "outgoing": side(&rp.outgoing),
+                                          "in_out_total": [rp.incoming_outgoing().0, rp.incoming_outgoing().1],
+                                          "fulfilled": rp.is_fulfilled()}))
+            })
+            .collect();
+        pays.sort_by(|a, b| a.0.cmp(&b.0));
+        m.insert("mem:payments".to_string(), Value::Object(pays.into_iter().collect()));
+        m.insert("mem:invoices".to_string(), json!(state.invoices.len()));
+        m.insert("mem:excess_amount".to_string(), json!(state.excess_amount));
+    }
     Value::Object(m)
 }
 
@@ -564,10 +584,12 @@ const KINDS: &[&str] = &[
     "validate_holder_commitment",
     "validate_holder_commitment_and_revoke",
     "validate_holder_commitment_htlc",
+    "validate_holder_commitment_htlc_b",
     "validate_holder_commitment_closed",
     "revoke_holder_commitment",
     "sign_counterparty_commitment",
     "sign_counterparty_commitment_htlc",
+    "sign_counterparty_commitment_htlc_b",
     "validate_counterparty_revocation",
     "sign_holder_commitment",
     "sign_mutual_close",
@@ -664,15 +686,19 @@ fn make_req(sys: &mut Sys, kind: &str) -> Req {
                 .is_ok()
             })
         }
-        "validate_holder_commitment_htlc" => {
+        "validate_holder_commitment_htlc" | "validate_holder_commitment_htlc_b" => {
+            // the same approved payment (hash of payment(1), 10 000 sat) on channel A or on channel B
             let (_, hash) = payment(1);
             node.add_keysend(make_test_pubkey(1), hash, 10_000_000).expect("keysend");
+            let on_b = kind.ends_with("_b");
+            let id = if on_b { sys.b.ctx.channel_id.clone() } else { a_id };
+            let cctx = if on_b { &sys.b.ctx } else { &sys.a.ctx };
             let offered = vec![HTLCInfo2 { value_sat: 10_000, payment_hash: hash, cltv_expiry: 50 }];
             let (to_h, to_c) = (VALUE - 1000 - 10_000 - 5000, 0);
-            let mut c1 = channel_commitment(&sys.nctx, &sys.a.ctx, 1, 1100, to_h, to_c, offered.clone(), vec![]);
-            let (sig, hs) = counterparty_sign_holder_commitment(&sys.nctx, &sys.a.ctx, &mut c1);
+            let mut c1 = channel_commitment(&sys.nctx, cctx, 1, 1100, to_h, to_c, offered.clone(), vec![]);
+            let (sig, hs) = counterparty_sign_holder_commitment(&sys.nctx, cctx, &mut c1);
             Box::new(move || {
-                node.with_channel(&a_id, |c| {
+                node.with_channel(&id, |c| {
                     c.validate_holder_commitment_tx_phase2(1, 1100, to_h, to_c, offered.clone(), vec![], &sig, &hs)?;
                     c.revoke_previous_holder_commitment(1).map(|_| ())
                 })
@@ -694,17 +720,20 @@ fn make_req(sys: &mut Sys, kind: &str) -> Req {
                     .is_ok()
             })
         }
-        "sign_counterparty_commitment_htlc" => {
-            let (_, hash) = payment(2);
+        "sign_counterparty_commitment_htlc" | "sign_counterparty_commitment_htlc_b" => {
+            // the same approved payment on channel A or on channel B, each for the whole amount
+            let (_, hash) = payment(1);
             node.add_keysend(make_test_pubkey(1), hash, 10_000_000).expect("keysend");
+            let on_b = kind.ends_with("_b");
+            let id = if on_b { sys.b.ctx.channel_id.clone() } else { a_id };
             let pt0 = cp_point(0);
-            node.with_channel(&a_id, |c| c.sign_counterparty_commitment_tx_phase2(&pt0, 0, 1100, VALUE - 1000 - 100, 0, vec![], vec![]))
+            node.with_channel(&id, |c| c.sign_counterparty_commitment_tx_phase2(&pt0, 0, 1100, VALUE - 1000 - 100, 0, vec![], vec![]))
                 .expect("cp 0");
             let pt = cp_point(1);
             let received = vec![HTLCInfo2 { value_sat: 10_000, payment_hash: hash, cltv_expiry: 50 }];
             Box::new(move || {
                 // our offered HTLC is a received HTLC of their commitment
-                node.with_channel(&a_id, |c| {
+                node.with_channel(&id, |c| {
                     c.sign_counterparty_commitment_tx_phase2(&pt, 1, 1100, VALUE - 1000 - 10_000 - 5000, 0, vec![], received.clone())
                 })
                 .is_ok()
@@ -1198,6 +1227,7 @@ fn sweep(rec: &Arc<Rec>, args: &Args) {
     // how many acquisitions does each request make (single-threaded)
     let mut acqs: Vec<(String, usize, Vec<String>)> = vec![];
     let mut progs: Vec<(String, usize, Vec<String>, Vec<u8>)> = vec![];
+    let mut s_window: Vec<(Vec<bool>, Vec<bool>)> = vec![];
     for kind in KINDS {
         rec.reset();
         let r0 = rec.add_role(None);
@@ -1213,6 +1243,7 @@ fn sweep(rec: &Arc<Rec>, args: &Args) {
             Err(_) => {
                 acqs.push((kind.to_string(), 0, vec![]));
                 progs.push((kind.to_string(), 0, vec![], vec![]));
+                s_window.push((vec![], vec![]));
                 continue;
             }
         };
@@ -1235,6 +1266,29 @@ fn sweep(rec: &Arc<Rec>, args: &Args) {
                 rel = 0;
             }
         }
+        // pause points inside a check-then-act window of the node state: one S section is over, S is
+        // not held, another S section follows
+        let total_s = st.role[r].events.iter().filter(|e| e.kind == 'A' && e.class == 1).count();
+        let (mut done_s, mut held_s, mut started_s) = (0usize, false, 0usize);
+        let (mut w_after, mut w_before) = (vec![], vec![]);
+        for e in st.role[r].events.iter() {
+            match e.kind {
+                'A' => {
+                    w_before.push(done_s >= 1 && !held_s && started_s < total_s);
+                    if e.class == 1 {
+                        held_s = true;
+                        started_s += 1;
+                    }
+                    w_after.push(done_s >= 1 && !held_s && started_s < total_s);
+                }
+                'R' if e.class == 1 => {
+                    held_s = false;
+                    done_s += 1;
+                }
+                _ => {}
+            }
+        }
+        s_window.push((w_after, w_before));
         progs.push((kind.to_string(), seq.len(), seq.clone(), rel_before));
         acqs.push((kind.to_string(), seq.len(), seq));
     }
@@ -1285,6 +1339,49 @@ fn sweep(rec: &Arc<Rec>, args: &Args) {
                     if seen.insert((pi, pt.clone(), qi)) {
                         triples.push((pi, pt.clone(), qi));
                     }
+                }
+            }
+        }
+    }
+    // the same approved payment on two channels (and on one): every pause point, both orders
+    let same_hash: Vec<usize> = ["sign_counterparty_commitment_htlc", "sign_counterparty_commitment_htlc_b",
+        "validate_holder_commitment_htlc", "validate_holder_commitment_htlc_b"].iter().filter_map(|n| index_of(n)).collect();
+    for &pi in same_hash.iter() {
+        for &qi in same_hash.iter() {
+            if pi != qi {
+                for pt in points_all[pi].iter() {
+                    if seen.insert((pi, pt.clone(), qi)) {
+                        triples.push((pi, pt.clone(), qi));
+                    }
+                }
+            }
+        }
+    }
+    // requests with a check-then-act window on the node state (named by the caller): paused inside the
+    // window, against every other request that takes the node state
+    let mut focus_s: Vec<usize> = vec![];
+    for a in args.rest.iter() {
+        if let Some(list) = a.strip_prefix("focus_s=") {
+            focus_s.extend(list.split(',').filter_map(|n| index_of(n)));
+        }
+    }
+    for &pi in focus_s.iter() {
+        let mut pts: Vec<String> = vec![];
+        for k in 1..=acqs[pi].1 {
+            if s_window[pi].1[k - 1] && points_all[pi].contains(&format!("@{}", k)) {
+                pts.push(format!("@{}", k));
+            }
+            if s_window[pi].0[k - 1] {
+                pts.push(format!(":{}", k));
+            }
+        }
+        for qi in 0..acqs.len() {
+            if qi == pi || !acqs[qi].2.iter().any(|l| l.starts_with("S#")) {
+                continue;
+            }
+            for pt in pts.iter() {
+                if seen.insert((pi, pt.clone(), qi)) {
+                    triples.push((pi, pt.clone(), qi));
                 }
             }
         }
